@@ -401,3 +401,88 @@ pub fn strip_text_locs(events: &mut [Ev]) {
         }
     }
 }
+
+/// Scaled documents: the small-alphabet spaces never reach the size thresholds inside the
+/// implementation (12-character name hash, 32/64-entry sets, the 1 KiB text decoding buffer,
+/// buffer growth steps). Each template is instantiated for every size just below, at and just
+/// above each threshold.
+pub fn scaled_sizes(quick: bool) -> Vec<usize> {
+    if quick {
+        vec![11, 12, 13, 32, 33, 64, 65, 255, 257, 1023, 1024, 1025, 2049]
+    } else {
+        vec![7, 8, 9, 11, 12, 13, 14, 15, 16, 17, 31, 32, 33, 63, 64, 65, 127, 128, 129, 255, 256, 257, 511, 512, 513, 1021, 1022, 1023, 1024, 1025, 1026, 2047, 2048, 2049, 4097]
+    }
+}
+
+pub fn scaled_docs(quick: bool) -> Vec<(String, Vec<u8>)> {
+    let mut v: Vec<(String, Vec<u8>)> = vec![];
+    for n in scaled_sizes(quick) {
+        let x = "x".repeat(n);
+        let q = "q".repeat(n);
+        let mut docs: Vec<(&str, String)> = vec![
+            ("text", format!("<p>{x}</p>y")),
+            ("text with a non-ASCII character at the end", format!("<p>{x}\u{e9}z</p>")),
+            ("non-ASCII text", format!("<p>{}</p>", "\u{e9}".repeat(n / 2 + 1))),
+            ("comment", format!("<!--{x}-->t")),
+            ("comment of dashes", format!("a<!--{}>b-->c", "-".repeat(n))),
+            ("attribute value", format!("<a b=\"{x}\" c='{x}' d={x}>t</a>")),
+            ("tag name", format!("<{q} k=v>t</{q}>u<{q}/>")),
+            ("attribute name", format!("<a {q}=v {q}>t</a>")),
+            ("script with an end-tag look-alike", format!("<script>{x}</scrip{x}</script>t")),
+            ("escaped script data", format!("<script><!--<script>{x}</script>{x}--></script>t")),
+            ("textarea", format!("<textarea>{x}</textare></textarea>t")),
+            ("title then text", format!("<title>{x}</title>{x}")),
+            ("cdata in svg", format!("<svg><![CDATA[{x}]]{x}]]><a/></svg>")),
+            ("doctype", format!("<!DOCTYPE html PUBLIC \"{x}\" '{x}'>t")),
+            ("bogus comment", format!("<!{x}>t<?{x}>u</ {x}>v")),
+            ("whitespace run inside a tag", format!("<a{}b=c>t", " ".repeat(n))),
+            ("text ending in a partial tag", format!("{x}<a b=\"{x}")),
+        ];
+        if n <= 300 {
+            docs.push(("many attributes", format!("<a{}>t</a>", (0..n).map(|i| format!(" k{i}=v{i}")).collect::<String>())));
+            docs.push(("many duplicate attributes", format!("<a{}>t</a>", " k=v".repeat(n))));
+            docs.push(("many elements", "<b>t</b><!--c-->".repeat(n)));
+            docs.push(("nesting", format!("{}t{}", "<div>".repeat(n), "</div>".repeat(n))));
+            docs.push(("many void and self-closing tags", format!("<svg>{}</svg>{}", "<a/>".repeat(n), "<br>".repeat(n))));
+        }
+        for (l, d) in docs.drain(..) {
+            v.push((format!("{l}, n={n}"), d.into_bytes()));
+        }
+    }
+    v
+}
+
+/// Schedules for a scaled document: fixed chunk sizes and single / double cuts around the
+/// size thresholds and around the end of the document.
+pub fn scaled_scheds(len: usize, quick: bool) -> Vec<Sched> {
+    let mut v = vec![];
+    let sizes: &[usize] = if quick { &[1, 7, 1024] } else { &[1, 2, 7, 15, 1000, 1023, 1024, 1025] };
+    for &c in sizes {
+        if c < len && (c > 1 || len <= 2600) {
+            v.push(Sched { cuts: (1..len).filter(|i| i % c == 0).collect(), empty_at: None });
+        }
+    }
+    let mut marks: Vec<usize> = vec![];
+    for t in [12usize, 13, 1023, 1024, 1025, 2048] {
+        for base in [0usize, 3, 4, 8] {
+            marks.push(base + t);
+        }
+    }
+    for back in 1..=4 {
+        marks.push(len.saturating_sub(back));
+    }
+    marks.sort();
+    marks.dedup();
+    marks.retain(|&m| m >= 1 && m < len);
+    for &m in &marks {
+        v.push(Sched { cuts: vec![m], empty_at: None });
+    }
+    if !quick {
+        for (i, &a) in marks.iter().enumerate() {
+            for &b in &marks[i + 1..] {
+                v.push(Sched { cuts: vec![a, b], empty_at: Some(1) });
+            }
+        }
+    }
+    v
+}
